@@ -53,6 +53,9 @@ CLAIMED = {
  "C19": ("structural rules over SSA and the type-checked syntax: recover-covers-call, exhaustiveness/agreement of the reflect.Kind switches against the set of numeric kinds, typing of the generated registries, wrapping condition via dominating facts",
          "Structural necessary conditions of a total bridge decided from source: every reflect.Value.Call sits under a deferred recover registered before any call and assigning the named error result; argument conversion covers the 12 non-float64 numeric kinds with the matching Go type, "
          "result conversion covers all 13 with the accessor of the matching class; all generated registry entries implement ECALFunction; executeFunction wraps every non-runtime error. Converted values and the wrapped functions' behaviour are not decided.", "3/C19"),
+ "C14": ("intra-procedural taint analysis of the string runtime (evaluated data must not reach the scanned or parsed text), dominance of the interpolation by the AllowEscapes test, slice/index obligations discharged by dominating facts",
+         "Decides non-interference on the string runtime's source: nothing computed from an evaluation result or error flows into the text searched for markers or handed to the parser (so data cannot become code and the literal is consumed monotonically); "
+         "interpolation is control dependent on AllowEscapes; every index/slice expression of the marker arithmetic is proven in bounds by dominating conditions. Escape handling and the marker texts are value dependent and not decided.", "3/C14"),
 }
 
 NOT_YET = "check not built yet in this session (see DESIGN.md section 3 for the planned static rule)"
